@@ -52,6 +52,37 @@ def appid_reuse():
         (("stop", 0), [0, 0, 0])])
 
 
+def failed_pair_leak(env):
+    """two hosts; the receiver's node has no room, so the creator's pair creation fails after its two temporary qubits
+    were made; then the creator's application stops.  Returns (what, replay) when qubits stay behind, else None"""
+    import random
+    import net_sync
+    import qasm_epr as EP
+    from netqasm.sdk.shared_memory import SharedMemoryManager
+    SharedMemoryManager.reset_memories()
+    env.clock.stopped = False
+    names = ["N0", "N1"]
+    net = net_sync.make_network(env, names, [4, 0], [10, 10])
+    Q.make_hosts(env, net)
+
+    def creator(conn, eprs):
+        eprs[0].create_keep(1)
+        conn.flush()
+    msgs = EP.sdk_messages(names, "N0", 0, [("N1", 0, 0)], creator)
+    Q.script_coins(env, [0] * 16, len(env.tap))
+    out = EP.run_concurrently(env, net, {0: msgs}, random.Random(1))
+    Q.script_coins(env, None, 0)
+    replies = [(type(m).__name__, rep) for (m, rep, esc) in out[0]]
+    counts = [(len(n.virtQubits), len(n.simQubits), len(n.registers)) for n in net.nodes]
+    stop_ok = replies and replies[-1][0] == "StopAppMessage" and replies[-1][1] and replies[-1][1][-1][0] == "done"
+    if counts[0] != (0, 0, 0):
+        return ("create_keep(1) towards a full node fails after its two temporary qubits were created; StopApp %s but the creator's node keeps "
+                "(held, sims, regs) = %r, qubitList ids %r" % ("completes" if stop_ok else "fails", counts[0], sorted(net.hosts[0].factory.qubitList)),
+                {"caps": [[4, 10], [0, 10]], "program": "N0: create_keep(1) with N1 on sockets (0,0); then the application ends (StopApp)",
+                 "replies": replies, "counts_after": counts})
+    return None
+
+
 def judge_c11(s):
     """the property, evaluated on the implementation alone (no model, no reference interpreter):
     every stop completes with exactly one completion reply and no error; whenever no application is active the
@@ -117,6 +148,7 @@ def run(ctx):
         name, caps, script = appid_reuse()
         reuse = QR.replay(env, caps, script)
         reuse.scenario = name
+        leak = failed_pair_leak(env)
     logging.disable(logging.NOTSET)
     gens = 0
     for s in sessions:
@@ -177,6 +209,13 @@ def run(ctx):
         else:
             ctx.broken_explained_by_known = True
     logging.disable(logging.NOTSET)
+    if leak is not None:
+        ctx.obligation("oracle C11:epr-temporaries", False, leak[0])
+        if ctx.report("C11:epr-temporaries", leak[0], leak[1], found_input=True):
+            found = True
+        else:
+            ctx.broken_explained_by_known = True
+    ctx.count("failed_pair_creation_scenarios")
     if not seen - {"C11:appid-reuse"}:
         ctx.obligation("oracle: every stop completes and idle nodes are back at their initial counts (fresh application ids)", True)
     if bad and not found and not (seen - {"C11:appid-reuse"}):
